@@ -1,9 +1,9 @@
 Require Extraction.
 Require Import ExtrOcamlBasic.
 From GoPdf.Base Require Import WireAnchor.
-From GoPdf.C06 Require Import Machine AHx A85 RunLen LZW Predict Chain FilterParams ChainInst CCITT CCITT2D CCITTParams.
+From GoPdf.C06 Require Import Machine AHx A85 RunLen LZW Predict Chain FilterParams ChainInst CCITT CCITT2D CCITTParams LZWStage.
 Separate Extraction wire_anchor
-  ahx_enc ahx_dec a85_enc a85_dec rl_enc rl_dec lzw_enc lzw_dec
+  ahx_enc ahx_dec a85_enc a85_dec rl_enc rl_dec lzw_enc lzw_dec lzw_stage_dec
   png_enc png_dec tiff_enc tiff_dec bytes_per_pixel bytes_per_row g3_enc g3_dec g4_enc g4_dec ccitt_max_rows rows_accepted
   c06_roundtrip c06_open c06_get
   flate_to_dict lzw_to_dict ccitt_to_dict parse_flate parse_lzw parse_ccitt
